@@ -557,6 +557,20 @@ def run(rep):
                             if not b.startswith("_") and not _reads([a["body"], a.get("guard") or {}], b):
                                 rep.violation("P8", key, "`%s` of %s is bound in an arm of %s and never read: the component is neither compiled nor refused" % (b, "::".join(pt["path"]["segs"]), f.qual), "src/%s:%d" % (f.file, a["l"]))
 
+    # P8 (cont.): the payload of an optional clause taken with `if let Some(x) = <clause>` and never read: its cases are not told apart (`DISTINCT ON (..)` compiled as DISTINCT)
+    for f in src8.fns:
+        if f.test or not f.body or not f.file.startswith("sql/"):
+            continue
+        for n8 in _find8(f.body, "if"):
+            c8 = n8["cond"]
+            if c8["k"] != "letcond" or c8["pat"]["k"] != "tuplestruct" or c8["pat"]["path"]["segs"][-1] != "Some":
+                continue
+            for b in _binds8(c8["pat"]):
+                key = "%s|if-let Some(%s)=%s" % (f.qual, b, _show8(c8["e"], 40).replace(" ", ""))
+                rep.instance("P8", key, None, nontrivial=False)
+                if not b.startswith("_") and not _reads([n8["then"]], b):
+                    rep.violation("P8", key, "`%s` is bound by `if let Some(%s) = %s` in %s and never read: the cases of the clause are not told apart (neither compiled nor refused)" % (b, b, _show8(c8["e"], 40), f.qual), "src/%s:%d" % (f.file, n8["l"]))
+
     # ---------------- P9 a rule of a node has one input label per child
     rep.rule(
         "P9",
@@ -590,6 +604,9 @@ def run(rep):
         necessary="the image of an interval is computed at its corners: `0^-1`, `f64::MAX^2`, `MAX + MAX` are +inf, the next interval operation gives inf - inf = NaN, and Intervals::union_interval "
         "asserts min <= max: the DP rewriting of VARIANCE / STDDEV (sum(pow(..))) panics instead of answering",
     )
+    from .canon import inline_value_helpers as _inl10, value_helpers as _vh10
+
+    vh10 = _vh10(src8, "data_type/function.rs")
     UNBOUNDED_M = {"exp", "exp2", "exp_m1", "ln", "ln_1p", "log", "log2", "log10", "sqrt", "cbrt", "powf", "powi", "sinh", "cosh", "tan", "recip", "mul_add", "hypot"}
     per10 = {}
     for f in src8.fns:
@@ -597,11 +614,20 @@ def run(rep):
             continue
         for c in _find8(f.body, "call"):
             pth = "::".join((c["f"].get("segs") or [])) if c["f"]["k"] == "path" else ""
-            if "PartitionnedMonotonic" not in pth or not c["args"] or "Float" not in _show8(c["args"][0], 0):
+            if "PartitionnedMonotonic" not in pth or not c["args"]:
+                continue
+            dom10 = _show8(c["args"][0], 0)
+            for hc in [x for x in _walk8(c["args"][0]) if x.get("k") == "call" and not x["args"] and x["f"]["k"] == "path" and len(x["f"]["segs"]) == 1]:
+                # the pieces factored out into a private zero-argument helper (`float_quadrants()`): read its body for the element type
+                dom10 += " ".join(_show8(h.body, 0) for h in src8.fns if h.file == "data_type/function.rs" and not h.self_ty and h.name == hc["f"]["segs"][0] and h.body)
+            for hl in [x for x in _walk8(c["args"][0]) if x.get("k") == "path" and len(x["segs"]) == 1]:
+                dom10 += " ".join(_show8(l_["init"], 0) for l_ in _find8(f.body, "let") if l_["pat"].get("k") == "ident" and l_["pat"]["name"] == hl["segs"][0] and l_.get("init") is not None)
+            if "Float" not in dom10:
                 continue
             for a in c["args"][1:]:
                 if a["k"] != "closure":
                     continue
+                a = _inl10(a, vh10)  # `|x, y| clamp_float(x + y)`: a one-expression private helper is the expression it names
                 ops = [x for x in _walk8(a["body"]) if (x.get("k") == "binary" and x["op"].strip() in ("+", "-", "*", "/")) or (x.get("k") == "mcall" and x["m"] in UNBOUNDED_M)]
                 if not ops:
                     continue
